@@ -26,6 +26,7 @@ import (
 	"verif/engine"
 	"verif/harness/hk"
 	"verif/harness/promx"
+	"verif/harness/tcpx"
 	"verif/harness/world"
 	"verif/rt/vrt"
 )
@@ -300,6 +301,81 @@ func ttSeq(ctx *engine.Ctx) {
 	}
 }
 
+// ---- through the real TCP handler ----
+
+// ttHandler: connection outcome classes through the real stream handler with the real
+// collectors; afterwards the reported tunnel time per key must equal the time during which
+// connections that really authenticated were open (authentication report to close report) -
+// in particular refused replays and probes, which the server keeps open to drain them,
+// contribute nothing.
+func ttHandler(ctx *engine.Ctx) {
+	specs := []tcpx.Spec{
+		{Cache: 10, RealMetrics: true, Conns: []tcpx.ConnSpec{{Class: "ok", Cipher: 0, Up: 10, Down: 10}, {Class: "replay-client", Cipher: 0, Up: 10, Down: 10}}},
+		{Cache: 0, RealMetrics: true, Conns: []tcpx.ConnSpec{{Class: "ok", Cipher: 1, Up: 10, Down: 100}, {Class: "replay-server", Cipher: 1}}},
+		{RealMetrics: true, Conns: []tcpx.ConnSpec{{Class: "relay-client", Cipher: 2, Up: 5, Down: 5}, {Class: "cipher", Cipher: 0}, {Class: "bad-addr", Cipher: 3, Var: 1}}},
+		{RealMetrics: true, Conns: []tcpx.ConnSpec{{Class: "relay-target", Cipher: 0}, {Class: "refused", Cipher: 1, Up: 3}}},
+	}
+	for i, s := range specs {
+		if !ctx.Mine(int64(i)) {
+			continue
+		}
+		s := s
+		o := &tcpx.Obs{}
+		sc := &engine.Scenario{Name: "tt-handler", Opt: vrt.Options{Horizon: 2 * time.Hour}}
+		sc.Body = tcpx.Build(s, o, func() service.ServiceMetrics {
+			m, err := outline_prometheus.NewServiceMetrics(fakeDB{})
+			if err != nil {
+				panic(err)
+			}
+			return m
+		})
+		sc.Check = func(x *vrt.Exec) (string, bool, []*engine.Finding) {
+			fs := hk.Generic(x, hk.Opts{})
+			if len(fs) > 0 || o.Metrics == nil {
+				return "generic", true, fs
+			}
+			want := map[string]float64{}
+			for _, co := range o.Conns {
+				if co == nil || co.Rec == nil || !co.WantAuth || len(co.Rec.Closed) != 1 || len(co.Rec.AuthAt) == 0 {
+					continue
+				}
+				want[co.Key.ID] += (co.Rec.Closed[0].At - co.Rec.AuthAt[0]).Seconds()
+			}
+			got, _, err := scrape(o.Metrics.(prometheus.Collector))
+			if err != nil {
+				fs = append(fs, &engine.Finding{Sig: "gather-error", Msg: err.Error()})
+			} else if d := compare(got, want); d != "" {
+				for k, v := range want {
+					if v == 0 && got[k] == 0 {
+						delete(want, k)
+					}
+				}
+				if d2 := compareNonZero(got, want); d2 != "" {
+					fs = append(fs, &engine.Finding{Sig: "tunnel-time-through-handler", Msg: "after real connections through the stream handler: key " + d2 + fmt.Sprintf(" spec=%s", s.String())})
+				}
+			}
+			return fmt.Sprint(got), true, fs
+		}
+		ctx.RunCase("tt-handler", "E", sc, s, nil)
+	}
+}
+
+// compareNonZero ignores keys whose expected and reported time are both zero (a zero-valued
+// series may or may not exist).
+func compareNonZero(got, want map[string]float64) string {
+	for k, v := range want {
+		if !eq(got[k], v) {
+			return fmt.Sprintf("%q: reported %.3f s, actual %.3f s", k, got[k], v)
+		}
+	}
+	for k, v := range got {
+		if !eq(want[k], v) {
+			return fmt.Sprintf("%q: reported %.3f s, actual %.3f s", k, v, want[k])
+		}
+	}
+	return ""
+}
+
 // ---- concurrency ----
 
 func collect(sm prometheus.Collector) (map[string]float64, map[string]float64) {
@@ -341,9 +417,10 @@ func concScenario(variant int) *engine.Scenario {
 	var finalLoc map[string]float64
 	var want float64
 	var negatives []string
+	var ivs [][4]time.Time // per tunnel of variant 3: earliest/latest possible open, earliest/latest possible close
 	sc := &engine.Scenario{Name: fmt.Sprintf("tt-conc-%d", variant), Opt: vrt.Options{ClockContended: true}}
 	sc.Body = func() {
-		final, finalLoc, want, negatives = nil, nil, 0, nil
+		final, finalLoc, want, negatives, ivs = nil, nil, 0, nil, nil
 		smx, err := outline_prometheus.NewServiceMetrics(fakeDB{})
 		if err != nil {
 			panic(err)
@@ -354,18 +431,20 @@ func concScenario(variant int) *engine.Scenario {
 		c0.AddAuthenticated(p.key)
 		start := vrt.NowQuiet()
 		var ts []*vrt.Thread
-		ts = append(ts, vrt.Spawn("scraper", func() {
-			k, _ := collect(smx)
-			for key, v := range k {
-				if v < 0 {
-					negatives = append(negatives, fmt.Sprintf("%s=%v", key, v))
+		if variant != 3 {
+			ts = append(ts, vrt.Spawn("scraper", func() {
+				k, _ := collect(smx)
+				for key, v := range k {
+					if v < 0 {
+						negatives = append(negatives, fmt.Sprintf("%s=%v", key, v))
+					}
 				}
-			}
-		}))
-		ts = append(ts, vrt.Spawn("ticker", func() {
-			vrt.Advance(time.Second)
-			vrt.Advance(time.Second)
-		}))
+			}))
+			ts = append(ts, vrt.Spawn("ticker", func() {
+				vrt.Advance(time.Second)
+				vrt.Advance(time.Second)
+			}))
+		}
 		switch variant {
 		case 0:
 			ts = append(ts, vrt.Spawn("traffic", func() {
@@ -380,6 +459,24 @@ func concScenario(variant int) *engine.Scenario {
 				u := sm.AddUDPNatEntry(&net.UDPAddr{IP: net.ParseIP(clientIPs[1]), Port: 9}, "k1")
 				u.RemoveNatEntry()
 			}))
+		case 3:
+			// two tunnels of one not yet active (IP, key) opening at the same time, closing one after
+			// the other: the client is active from the first open to the last close
+			q := pairs[2] // (ip0, k2)
+			for j := 0; j < 2; j++ {
+				j := j
+				ts = append(ts, vrt.Spawn(fmt.Sprintf("open%d", j), func() {
+					c := sm.AddOpenTCPConnection(world.NewMemConn(nil, addrOf(q.ip, 10+j)))
+					t0 := vrt.NowQuiet()
+					c.AddAuthenticated(q.key)
+					t0b := vrt.NowQuiet()
+					vrt.Advance(time.Second) // time passes while the tunnel is open
+					t1 := vrt.NowQuiet()
+					c.AddClosed("OK", metrics.ProxyMetrics{}, time.Second)
+					t2 := vrt.NowQuiet()
+					ivs = append(ivs, [4]time.Time{t0, t0b, t1, t2})
+				}))
+			}
 		}
 		vrt.Join(ts...)
 		c0.AddClosed("OK", metrics.ProxyMetrics{}, time.Second)
@@ -402,6 +499,41 @@ func concScenario(variant int) *engine.Scenario {
 			if got < lo-1e-6 || got > hi+1e-6 {
 				fs = append(fs, &engine.Finding{Sig: "tunnel-time-per-key", Msg: fmt.Sprintf("key k1: reported %.3f s, the tunnel was open %.3f s", got, want)})
 			}
+			if variant == 3 && len(ivs) == 2 {
+				// client (ip0,k2): active from the first open to the last close; each instant is known up
+				// to the clock reads inside the call (the ticker may move the clock during a call)
+				// union of the two activity intervals: lower bound from the shortest possible intervals
+				// [latest open, earliest close], upper bound from the longest [earliest open, latest close]
+				union := func(lo, hi int) float64 {
+					a0, a1 := ivs[0][lo], ivs[0][hi]
+					b0, b1 := ivs[1][lo], ivs[1][hi]
+					la, lb := a1.Sub(a0).Seconds(), b1.Sub(b0).Seconds()
+					if la < 0 {
+						la = 0
+					}
+					if lb < 0 {
+						lb = 0
+					}
+					// overlap
+					s0, e0 := a0, a1
+					if b0.After(s0) {
+						s0 = b0
+					}
+					if b1.Before(e0) {
+						e0 = b1
+					}
+					ov := e0.Sub(s0).Seconds()
+					if ov < 0 || la == 0 || lb == 0 {
+						ov = 0
+					}
+					return la + lb - ov
+				}
+				lo2, hi2 := union(1, 2), union(0, 3)
+				if g := final["k2"]; g < lo2-1e-6 || g > hi2+1e-6 {
+					fs = append(fs, &engine.Finding{Sig: "tunnel-time-per-key", Msg: fmt.Sprintf("key k2: two tunnels of one client opened at the same time; reported %.3f s, the client was active between %.3f s and %.3f s", g, lo2, hi2)})
+				}
+				got += final["k2"]
+			}
 			tl := 0.0
 			for _, v := range finalLoc {
 				tl += v
@@ -418,7 +550,7 @@ func concScenario(variant int) *engine.Scenario {
 func ConcScenarios() []*engine.Scenario { return concScenarios() }
 
 func concScenarios() []*engine.Scenario {
-	return []*engine.Scenario{concScenario(0), concScenario(1), concScenario(2)}
+	return []*engine.Scenario{concScenario(0), concScenario(1), concScenario(2), concScenario(3)}
 }
 
 func init() {
@@ -430,9 +562,15 @@ func init() {
 		for _, sc := range concScenarios() {
 			engine.ExploreS(ctx, sc, engine.SConfig{Bound: bound, Shard: ctx.Shard, NShards: ctx.NShards, Deadline: ctx.Deadline})
 		}
+		ttHandler(ctx)
 		ttSeq(ctx)
 	})
 	hk.Replayers["C17"] = func(ctx *engine.Ctx, rp engine.Replay) []*engine.Finding {
+		if rp.Unit == "tt-handler" {
+			sub := &engine.Ctx{Res: engine.NewResult("C17", ctx.Tier), NShards: 1}
+			ttHandler(sub)
+			return sub.Res.Findings
+		}
 		if rp.Unit == "tt-seq" {
 			sub := &engine.Ctx{Res: engine.NewResult("C17", ctx.Tier)}
 			var sc seqCase
